@@ -79,3 +79,53 @@ P.zero_out_of_bounds.harness = Harness(
     variants=[("py_func", _zoob_native(lambda r: _pyf(_pp().zero_out_of_bounds)(r)))],
     gen=_zoob_gen, scope="<=2 records x lengths 0..3 of 3 samples + random <=6 records of 4 samples",
     nontrivial=lambda i: len(i["records"]) >= 1)
+
+
+# ---- cut_baseline (data_reduction.py): the contract is proved on the source; this harness runs the real (JIT-compiled) function, so
+# ---- that "numba executes what the source says" is cross-checked for it as for the other kernels
+def _cb_gen(rng, tier):
+    import strax
+    spr = 4
+    for pulse_length in (1, 3, 4, 5, 8, 9):
+        for n_before in (0, 1, 2, 5):
+            for n_after in (0, 1, 3, 6):
+                n_frag = -(-pulse_length // spr)
+                r = np.zeros(n_frag, dtype=strax.record_dtype(spr))
+                for k in range(n_frag):
+                    r[k]["time"], r[k]["channel"], r[k]["record_i"], r[k]["dt"] = 10 * k * spr, 1, k, 10
+                    r[k]["length"] = min(spr, pulse_length - k * spr)
+                    r[k]["pulse_length"] = pulse_length
+                    r[k]["data"] = [7 + k, 8, 9, 10 + k]
+                    r[k]["baseline"], r[k]["area"] = 3.5, 11
+                yield dict(records=r, n_before=n_before, n_after=n_after)
+    for _ in range(200 if tier == "quick" else 10000):
+        rows = []
+        for _p in range(rng.randint(1, 3)):
+            pl = rng.randint(1, 11)
+            for k in range(-(-pl // spr)):
+                rows.append((pl, k))
+        r = np.zeros(len(rows), dtype=strax.record_dtype(spr))
+        for j, (pl, k) in enumerate(rows):
+            r[j]["time"], r[j]["channel"], r[j]["record_i"], r[j]["dt"], r[j]["pulse_length"] = 100 * j, rng.randint(0, 2), k, 1, pl
+            r[j]["length"] = min(spr, pl - k * spr)
+            r[j]["data"] = [rng.randint(-3, 9) for _s in range(spr)]
+        yield dict(records=r, n_before=rng.randint(0, 6), n_after=rng.randint(0, 6))
+
+
+def _cb_native(f, rec=False):
+    def run(i):
+        f(i["records"].view(np.recarray) if rec else i["records"], i["n_before"], i["n_after"])
+        return None
+    return run
+
+
+def _dr():
+    import strax.processing.data_reduction as dr
+    return dr
+
+
+P.cut_baseline.harness = Harness(
+    native=_cb_native(lambda r, b, a: _dr().cut_baseline(r, b, a)),
+    variants=[("py_func on a record array", _cb_native(lambda r, b, a: _pyf(_dr().cut_baseline)(r, b, a), rec=True))],
+    gen=_cb_gen, scope="pulses of 1..9 samples in fragments of 4 x n_before in {0,1,2,5} x n_after in {0,1,3,6} + random <=3 pulses of <=11 samples",
+    nontrivial=lambda i: len(i["records"]) >= 1)
